@@ -77,7 +77,7 @@ def seq_len(v):
         return len(v.items)
     if isinstance(v, tuple):
         return len(v)
-    raise EngineError("len() of %r" % (v,))
+    raise EngineError("len() of %s" % type(v).__name__)
 
 
 def seq_get(s, i):
